@@ -13,3 +13,18 @@ Theorem c11_width_zero_too_narrow : forall c doc tree,
   lines_from_read inline_styles doc_rules c doc 0 = TooNarrow.
 Proof. exact (width_zero_too_narrow inline_styles doc_rules). Qed.
 Print Assumptions c11_width_zero_too_narrow.
+
+From H2T Require Import Proofs.WrapInv Proofs.OptionRel.
+(* WrappedBlock layer: allowing overflow never changes a run that already succeeds ... *)
+Theorem c11_overflow_noop : forall W pad cs ls, run W pad false cs = Ok ls -> run W pad true cs = Ok ls.
+Proof. exact OptionRel.c11_overflow_noop. Qed.
+Print Assumptions c11_overflow_noop.
+(* ... and with it every run at width >= 1 succeeds *)
+Theorem c11_overflow_always_ok : forall W pad cs, 1 <= W -> exists ls, run W pad true cs = Ok ls.
+Proof. exact OptionRel.c11_overflow_never_too_narrow. Qed.
+Print Assumptions c11_overflow_always_ok.
+Theorem c11_overflow_only_rescues : forall W pad cs, 1 <= W ->
+  run W pad true cs = run W pad false cs \/
+  (run W pad false cs = TooNarrow /\ exists ls, run W pad true cs = Ok ls).
+Proof. exact OptionRel.c11_overflow_only_rescues. Qed.
+Print Assumptions c11_overflow_only_rescues.
